@@ -33,6 +33,9 @@ const (
 	bDeferHost
 	bSendBuffered
 	bSelectMany
+	bSortCallback
+	bMapCallback
+	bRangeSlice
 	bSleepLoop
 	nBodies
 )
@@ -40,7 +43,7 @@ const (
 var bodyName = [...]string{"loop-tick", "count-loop", "recursion", "closure-loop", "method-loop", "funcval-loop",
 	"nested-call", "make-closure-loop", "send-block", "recv-block", "recv-cond", "recv2", "range-chan",
 	"select-recv-send", "select-default-loop", "select-empty", "ping-pong", "defer-literal", "defer-host",
-	"send-buffered-full", "select-many", "sleep-loop"}
+	"send-buffered-full", "select-many", "sort-callback", "strings-map-callback", "range-slice-loop", "sleep-loop"}
 
 // C09Prog is a generated program.
 type C09Prog struct {
@@ -62,6 +65,8 @@ type c09Gen struct {
 	desc   []string
 	sleeps bool
 	needStarter bool
+	needSort    bool
+	needStrings bool
 	allowSleep bool
 }
 
@@ -160,6 +165,14 @@ func (g *c09Gen) actor(depth int) int {
 		p("\tc := make(chan int, 2)\n\tfor i := 0; ; i++ {\n\t\tc <- i\n\t\thost.Tick(%d)\n\t}\n", id)
 	case bSelectMany:
 		p("\tc1 := make(chan int)\n\tc2 := make(chan string)\n\tc3 := make(chan int, 1)\n\tfor i := 0; i < 3; i++ {\n\t\tselect {\n\t\tcase v, ok := <-c1:\n\t\t\tif ok {\n\t\t\t\thost.Tick(%d + v*0)\n\t\t\t}\n\t\tcase c2 <- \"x\":\n\t\t\thost.Tick(%d)\n\t\tcase c3 <- i:\n\t\t\thost.Tick(%d)\n\t\t}\n\t}\n\thost.Tick(%d)\n", 900+id, 900+id, id, 900+id)
+	case bSortCallback:
+		g.needSort = true
+		p("\txs := []int{5, 3, 9, 1, 7, 2, 8}\n\tfor r := 0; ; r++ {\n\t\tsort.Slice(xs, func(i, j int) bool {\n\t\t\thost.Tick(%d)\n\t\t\tif r%%2 == 0 {\n\t\t\t\treturn xs[i] < xs[j]\n\t\t\t}\n\t\t\treturn xs[i] > xs[j]\n\t\t})\n\t}\n", id)
+	case bMapCallback:
+		g.needStrings = true
+		p("\tfor {\n\t\t_ = strings.Map(func(c rune) rune {\n\t\t\thost.Tick(%d)\n\t\t\treturn c + 1\n\t\t}, \"abcdef\")\n\t}\n", id)
+	case bRangeSlice:
+		p("\tdata := []int{1, 2, 3, 4}\n\tm := map[int]int{1: 1, 2: 2}\n\tfor {\n\t\tfor i, v := range data {\n\t\t\thost.Tick(%d + i*0 + v*0)\n\t\t}\n\t\tfor k := range m {\n\t\t\thost.Tick(%d + k*0)\n\t\t}\n\t\tfor i := range 3 {\n\t\t\thost.Tick(%d + i*0)\n\t\t}\n\t}\n", id, id, id)
 	case bSleepLoop:
 		g.sleeps = true
 		p("\tfor {\n\t\ttime.Sleep(%d * time.Millisecond)\n\t\thost.Tick(%d)\n\t}\n", 1+g.tape.Choose(4), id)
@@ -208,6 +221,12 @@ func GenC09Imp(tape *Tape, allowSleep, withImport bool) *C09Prog {
 	root := g.actor(0)
 	var src strings.Builder
 	src.WriteString("package main\n\nimport (\n")
+	if g.needSort {
+		src.WriteString("\t\"sort\"\n")
+	}
+	if g.needStrings {
+		src.WriteString("\t\"strings\"\n")
+	}
 	if g.sleeps {
 		src.WriteString("\t\"time\"\n")
 	}
